@@ -33,11 +33,12 @@ for C in $CHECKS; do
   echo "check $C: exit=$E violations=$V (with replayed failing input: $NF) first: $F"
   tail -1 /tmp/seedchk-$NAME.$C.out
   RES="$RES $C:exit=$E:violations=$V:replayed=$NF"
+  FIRST="$F"
 done
 python3 - <<PY
 import json, os
 meta=dict(property="$PID", name="$NAME", tests_with_change="""$T""", demo_exit_without_change=$D0, demo_exit_with_change=$D1,
-          checks_run="""$RES""".split(), source="independent sub-agent given only the property text and a scratch worktree; confirmed here on a fresh worktree of /repo HEAD",
+          checks_run="""$RES""".split(), first_obligations=[x for x in """${FIRST:-}""".split(';') if x], source="independent sub-agent given only the property text and a scratch worktree; confirmed here on a fresh worktree of /repo HEAD",
           needs=open("/verif/seeded/$NAME/notes.md").read()[:2000] if os.path.exists("/verif/seeded/$NAME/notes.md") else "")
 json.dump(meta, open("/verif/seeded/$NAME/meta.json","w"), indent=1)
 PY
